@@ -1,4 +1,6 @@
 #include "seams.h"
+#include <errno.h>
+#include <sys/mman.h>
 #include "harness.h"
 #include "kernel.h"
 
@@ -104,6 +106,78 @@ set_channel_caps(const std::vector<size_t>& caps)
 {
     g_caps = caps;
     g_cap_idx = 0;
+}
+
+// ---- guard allocator (see the extern "C" wrappers below)
+struct GuardBlock
+{
+    char* base;
+    size_t total;
+    char* body;
+    size_t body_len;
+    size_t n;
+    bool live;
+};
+static std::map<const void*, GuardBlock> g_guard;
+static const size_t GUARD_BYTES = 1ull << 30;
+
+#if defined(__SANITIZE_ADDRESS__)
+extern "C" void
+__asan_poison_memory_region(void const volatile* addr, size_t size);
+#define GUARD_POISON(a, n) __asan_poison_memory_region((a), (n))
+#else
+#define GUARD_POISON(a, n) ((void)0)
+#endif
+
+void*
+guard_alloc(size_t align, size_t n)
+{
+    const size_t page = 4096;
+    if (align < 16)
+        align = 16;
+    size_t body_len = ((n ? n : 1) + page - 1) / page * page;
+    size_t total = GUARD_BYTES + body_len + GUARD_BYTES;
+    char* base = (char*)mmap(nullptr, total, PROT_NONE,
+                             MAP_PRIVATE | MAP_ANONYMOUS | MAP_NORESERVE, -1, 0);
+    if (base == (char*)MAP_FAILED)
+        return nullptr;
+    char* body = base + GUARD_BYTES;
+    if (mprotect(body, body_len, PROT_READ | PROT_WRITE) != 0) {
+        munmap(base, total);
+        return nullptr;
+    }
+    size_t off = (body_len - n) & ~(align - 1);
+    char* p = body + off;
+    memset(body, 0xCD, body_len); // fresh memory is not zero
+    GUARD_POISON(body, off);
+    GUARD_POISON(p + n, body_len - off - n);
+    g_guard[p] = GuardBlock{ base, total, body, body_len, n, true };
+    sim::probe("n.guard_allocs");
+    return p;
+}
+
+size_t
+guard_size(const void* p)
+{
+    auto it = g_guard.find(p);
+    return it == g_guard.end() || !it->second.live ? (size_t)-1 : it->second.n;
+}
+
+void
+guard_free(void* p)
+{
+    if (!p)
+        return;
+    auto it = g_guard.find(p);
+    if (it == g_guard.end()) {
+        free(p); // not ours (ASan reports a bad free)
+        return;
+    }
+    if (!it->second.live)
+        sim::violation("crash:double-free:guard_free",
+                       "a block of the guarded module is freed twice");
+    it->second.live = false;
+    mprotect(it->second.body, it->second.body_len, PROT_NONE);
 }
 
 struct Block
@@ -318,6 +392,53 @@ extern "C"
             ++g_frees;
         }
         free(p);
+    }
+
+    // ------------------------------------------------ guard allocator
+    // Every block lives in its own mapping between two 1 GiB inaccessible
+    // guards, its end as close to the upper guard as the alignment allows;
+    // the slack inside the mapped pages is ASan-poisoned; a freed block stays
+    // inaccessible for ever.  Out-of-bounds and use-after-free accesses to
+    // such a block are therefore reported at the same instruction whatever
+    // the state of the heap (ASan's own redzones only catch accesses that
+    // land next to the block, and what lies further depends on the process's
+    // allocation history, which differs between a worker and a replay).
+    void* sim_guard_aligned_alloc(size_t align, size_t n)
+    {
+        return simseam::guard_alloc(align ? align : 16, n);
+    }
+    void* sim_guard_malloc(size_t n) { return simseam::guard_alloc(16, n); }
+    void* sim_guard_calloc(size_t a, size_t b)
+    {
+        if (b && a > SIZE_MAX / b)
+            return nullptr;
+        void* p = simseam::guard_alloc(16, a * b);
+        if (p)
+            memset(p, 0, a * b);
+        return p;
+    }
+    int sim_guard_posix_memalign(void** out, size_t align, size_t n)
+    {
+        void* p = simseam::guard_alloc(align, n);
+        if (!p)
+            return ENOMEM;
+        *out = p;
+        return 0;
+    }
+    void sim_guard_free(void* p) { simseam::guard_free(p); }
+    void* sim_guard_realloc(void* q, size_t n)
+    {
+        if (!q)
+            return simseam::guard_alloc(16, n);
+        size_t old = simseam::guard_size(q);
+        if (old == (size_t)-1)
+            return realloc(q, n); // not ours
+        void* p = simseam::guard_alloc(16, n);
+        if (p) {
+            memcpy(p, q, old < n ? old : n);
+            simseam::guard_free(q);
+        }
+        return p;
     }
 
 } // extern "C"
